@@ -39,6 +39,8 @@ impl Shard {
 pub struct Acc {
     pub evaluations: u64,
     pub nontrivial: HashSet<u64>,
+    /// distinct non-trivial cases counted directly (exhaustive enumerations, where every case is distinct by construction)
+    pub nt_extra: u64,
     pub counters: BTreeMap<String, u64>,
     pub samples: Vec<J>,
     pub violations: Vec<J>,
@@ -65,7 +67,11 @@ impl Acc {
     pub fn bump(&mut self, k: &str, n: u64) { if n > 0 { *self.counters.entry(k.to_string()).or_insert(0) += n; } }
     pub fn sample(&mut self, j: J) { if self.samples.len() < self.max_samples { self.samples.push(j); } }
     pub fn violation(&mut self, prop: &str, clause: &str, detail: String, facts: J, case: J) {
-        if self.violations.len() < 40 {
+        // every violation is counted; at most 4 per signature are listed (so that a rare kind is never hidden by a frequent one)
+        let sig = format!("viol:{prop}:{clause}:{}:{}:{}:{}", facts.gets("dd").or(case.get("cfg").and_then(|c| c.gets("dd"))).unwrap_or("-"), case.gets("family").unwrap_or("-"),
+            case.getb("long_arcs").map_or("-", |b| if b { "long_arcs" } else { "no_long_arcs" }), facts.getb("node_is_root").map_or("-", |b| if b { "root" } else { "notroot" }));
+        let n = { let c = self.counters.entry(sig).or_insert(0); *c += 1; *c };
+        if n <= 4 && self.violations.len() < 400 {
             self.violations.push(J::obj().set("property", J::s(prop)).set("clause", J::s(clause)).set("detail", J::s(detail)).set("facts", facts).set("case", case));
         } else {
             self.bump("violations_not_listed", 1);
@@ -96,6 +102,7 @@ impl Acc {
         J::obj()
             .set("evaluations", J::i(self.evaluations))
             .set("distinct_nontrivial_local", J::i(self.nontrivial.len()))
+            .set("nt_extra", J::i(self.nt_extra))
             .set("counters", J::Obj(self.counters.iter().map(|(k, v)| (k.clone(), J::i(*v))).collect()))
             .set("samples", J::Arr(self.samples.clone()))
             .set("violations", J::Arr(self.violations.clone()))
@@ -179,6 +186,9 @@ pub struct Profile {
     pub no_pooled: bool,
     pub only_all_impacted: bool,
     pub max_width: usize,
+    /// family T with the 'weak' dominance rule (domination possible between equally good states, not preserved by
+    /// transitions): exposes finding H7; only the C10 campaign uses it
+    pub weak_t_dominance: bool,
 }
 
 pub fn random_variant(rng: &mut Rng, with_dom: bool) -> Variant {
@@ -209,7 +219,8 @@ pub fn random_spec(rng: &mut Rng, p: &Profile) -> CaseSpec {
         'K' => if p.reconvergent { KSZ_FEWWEIGHTS } else if p.small && rng.chance(1, 2) { KSZ_SMALL } else { *rng.pick(&[KSZ_TINY, KSZ_TINY, KSZ_FEWWEIGHTS]) },
         _ => if p.reconvergent { PSZ_SPARSE } else if p.small && rng.chance(1, 2) { PSZ_SMALL } else { *rng.pick(&[PSZ_TINY, PSZ_TINY, PSZ_SPARSE]) },
     };
-    let variant = random_variant(rng, p.with_dominance);
+    let mut variant = random_variant(rng, p.with_dominance);
+    if fam == 'T' && variant.dom == DomKind::Weak && !p.weak_t_dominance { variant.dom = DomKind::Exact; }
     let dd = if p.no_pooled { *rng.pick(&[DdKind::Lel, DdKind::Fc]) } else { *rng.pick(&DdKind::ALL) };
     let maxw = if p.max_width == 0 { 4 } else { p.max_width };
     let width = match rng.below(10) {
